@@ -68,7 +68,7 @@ def run(rep):
     rep.coverage["distinct_nontrivial"] = rep.coverage.get("edges_total", 0) + len(seen)
     for k in ("acquire_refused_at_max", "release_refused_at_zero", "acquire_and_release",
               "clear_with_acquire_or_release"):
-        if cnt[k] == 0:
+        if cnt[k] == 0 and not rep.violations:
             rep.machinery(f"C20: corner '{k}' never occurred in the recorded traces (vacuous)")
     rep.assumptions += ["Amaranth Python simulator is faithful to the elaborated netlist",
                         "the exhaustive model follows the history counters only up to 7 acquisitions per clear epoch "
